@@ -18,47 +18,59 @@ REQUIRES = ["Model.AsyncRun", "Spec.C14"]
 PROOF_FILES = ["Proof/C14.v"]
 MANIFEST = {
     "text": "PARTIAL. Coq theorems over all test programs of timed stages (setUp, test, tearDown, any number of "
-            "cleanups; each returns / raises / returns a Deferred firing or failing after any delay / never fires, "
-            "and may leave delayed calls, log an error, drop a failed Deferred, raise skip or KeyboardInterrupt), all "
-            "timeouts and interrupt instants, both runner variants and all logging options, about a hand-written "
-            "Gallina model of _run_deferred's callback graph, _run_cleanups, _blocking_run_deferred and _run_core on a "
-            "virtual clock: sequencing (a stage starts when its predecessor fired, cleanups LIFO), exactly one "
-            "outcome, success iff everything completed cleanly before the cut, timeout/interrupt => error (interrupt "
-            "also stop(), nothing else does), every cleanup run and none left registered when nothing cut the run, "
-            "Spinner._clean empties any delayed-call queue, log observers restored for any number of pre-installed "
-            "observers on every path. Tied to /repo on every run by executing the real runner over a virtual-time "
-            "reactor (and a sample on the real global reactor) and the model inside coqc on the same generated "
-            "programs; the oracle for a failing input is the executable statement spec_okb, proved equivalent to Spec.",
+            "cleanups; each returns / raises / returns an already fired Deferred / a Deferred firing or failing after "
+            "any delay / an already fired Deferred whose chain is paused on an inner one firing after any delay / never "
+            "fires, and may leave delayed calls, log an error, drop a failed Deferred, raise skip or "
+            "KeyboardInterrupt), all timeouts and interrupt instants, both runner variants, both reactor disciplines "
+            "(one call per iteration / every call due at the start of the iteration), all logging options, about a "
+            "hand-written Gallina model of _run_deferred's callback graph, _run_cleanups, _blocking_run_deferred, "
+            "_run_core and the passes the reactor still makes at the cut instant (rest of the timeout's iteration, "
+            "obligatory iterations) on a virtual clock: the stage log is a walk along the plan (a stage starts when "
+            "the whole chain of its predecessor is over, cleanups LIFO), exactly one outcome, success iff everything "
+            "completed cleanly strictly before the cut, timeout/interrupt => error even when the cut-off stages still "
+            "run afterwards (interrupt also stop(), nothing else does), every cleanup run and none left registered "
+            "when nothing cut the run, Spinner._clean empties any delayed-call queue, log observers restored for any "
+            "number of pre-installed observers on every path. Tied to /repo on every run by executing the real runner "
+            "over a virtual-time reactor (and a sample on the real global reactor) and the model inside coqc on the "
+            "same generated programs; the oracle for a failing input is the executable statement spec_okb, proved "
+            "equivalent to Spec.",
     "note": "PARTIAL: the reactor, Twisted's Deferred/inlineCallbacks sequencing (built into the model, tied to the code "
             "only by correspondence), garbage collection of Deferreds (DebugInfo.__del__, replaced by 'a failed "
             "Deferred without errback at the end of the run'), Twisted's log publisher and real signal delivery are "
             "modelled, not verified; the real global reactor is only sampled (quick 20 / thorough 300 programs with "
             "delays 0 / never / far, no interrupts; judged by the same model and spec_okb in coqc). 'Nothing left "
-            "scheduled' is judged on the observed number of leftover calls that never ran. For the ForBrokenTwisted variant a "
-            "stage Deferred due exactly at the cut instant is outside the model (the obligatory reactor iterations "
-            "would run it after the result is decided). Trusted: Coq kernel + vm_compute; the harness (generators, "
+            "scheduled' is judged on the observed number of leftover calls that never ran. A stage Deferred due exactly "
+            "at the cut instant counts as not completed (the timeout call is the oldest call, an interrupt precedes "
+            "the calls due at its instant); whether the reactor still runs it afterwards is left open by the statement "
+            "and decided by the model. Trusted: Coq kernel + vm_compute; the harness (generators, "
             "drivers, virtual reactor, Gallina printer). All theorems closed under the global context.",
-    "technique": "Coq proof (fold over timed stages on a virtual clock, invariants) + model/implementation "
-                 "correspondence in coqc over a virtual-time reactor",
+    "technique": "Coq proof (fold over timed stages on a virtual clock, invariants, induction over late reactor "
+                 "passes) + model/implementation correspondence in coqc over a virtual-time reactor",
     "ref": "6 C14",
 }
 RULE = ("programs: setUp / test / tearDown / 0-3 cleanups, each stage one of return, raise (error, failure, skip, "
-        "KeyboardInterrupt), Deferred firing/failing after a delay in {<,=,>} of what is left of the timeout, never, "
-        "decorated with 0-2 leftover delayed calls / a self-rescheduling poller / a logged error / a dropped failed "
-        "Deferred; timeout; optional "
-        "interrupt instant; runner variant x suppress_twisted_logging x store_twisted_logs x 0-2 pre-installed log "
-        "observers; non-trivial = at least one asynchronous stage and one non-clean stage or a cut; distinct = "
-        "distinct JSON")
+        "KeyboardInterrupt), already fired Deferred (succeed / fail), Deferred firing/failing after a delay in {<,=,>} "
+        "of what is left of the timeout, ALREADY FIRED Deferred paused on an inner one firing after such a delay, "
+        "never, decorated with 0-2 leftover delayed calls / a self-rescheduling poller / a logged error / a dropped "
+        "failed Deferred; timeout; optional interrupt instant; runner variant x reactor discipline (one call per "
+        "iteration | batch) x suppress_twisted_logging x store_twisted_logs x 0-2 pre-installed log observers; a "
+        "quarter of the random programs are rewritten so that one stage is due exactly at the cut instant, half of "
+        "those with only synchronous stages behind it; non-trivial = at least one asynchronous stage and one "
+        "non-clean stage, a cut or a tie; distinct = distinct JSON")
 TRUSTED = ["PARTIAL: the reactor, GC of Deferreds (DebugInfo.__del__), Twisted's log publisher and real signal "
-           "delivery are modelled, not verified (harness/vcheck/vreactor.py stands for the reactor)",
+           "delivery are modelled, not verified (harness/vcheck/vreactor.py, and its batch subclass in c14.py, stand "
+           "for the reactor)",
            "testtools.testresult.doubles.ExtendedTestResult is the observation device for the result log"]
-ASSUMPTIONS = ["one delayed call runs at a time, simultaneous calls in scheduling order (vreactor with an empty "
-               "oracle); an interrupt is an out-of-band event delivered before the first call due at or after it",
-               "stages act only through their return value and the listed decorations",
-               "ForBrokenTwisted: no stage Deferred is due exactly at the cut instant (wf)"]
-EXPLANATION = ("Theorems in coq/Props/C14.v; correspondence: the real runner over vcheck.vreactor.VReactor against "
-               "coq/Model/AsyncRun.v on generated programs (result log, stage log with virtual timestamps, "
-               "getDelayedCalls(), log observers before/after, cleanups left), plus a sample on the real reactor.")
+ASSUMPTIONS = ["simultaneous delayed calls run in scheduling order (vreactor with an empty oracle; the Spinner's "
+               "timeout call is the oldest); an interrupt is an out-of-band event delivered before the first call due "
+               "at or after it",
+               "reactor discipline is an input: one call per iteration (crash() takes effect at once) or batch = "
+               "every call that was due when the iteration began runs in it (the real runUntilCurrent); calls "
+               "scheduled during an iteration wait for the next one",
+               "stages act only through their return value and the listed decorations"]
+EXPLANATION = ("Theorems in coq/Props/C14.v; correspondence: the real runner over vcheck.vreactor.VReactor (and a batch "
+               "subclass) against coq/Model/AsyncRun.v on generated programs (result log, stage log with virtual "
+               "timestamps, getDelayedCalls(), log observers before/after), plus a sample on the real reactor.")
 MAXTASKS = 100
 
 CLS = ["err", "fail", "skip", "kbd"]
@@ -78,6 +90,48 @@ def _begin():
 
 class _UserErr(Exception):
     pass
+
+
+_BATCH = []
+
+
+def _batch_reactor_class():
+    """vcheck.vreactor.VReactor with the real reactor's runUntilCurrent: an iteration runs every call that was due
+    when it began (insertion order), whatever crash() did meanwhile; calls scheduled during the iteration - also
+    for the same virtual instant - wait for the next one, which only happens while the reactor is still running."""
+    if _BATCH:
+        return _BATCH[0]
+    from vcheck.vreactor import Hang, VReactor
+
+    class BatchReactor(VReactor):
+        def run(self, installSignalHandlers=True):
+            if self.running:
+                raise RuntimeError("ReactorAlreadyRunning")
+            if self.really_stopped:
+                raise RuntimeError("ReactorNotRestartable")
+            self.running = True
+            while self._hooks and self.running:
+                f, a, kw = self._hooks.pop(0)
+                f(*a, **kw)
+            while self.running:
+                if self._deliver_interrupt():
+                    continue
+                if not self.clock.calls:
+                    self.running = False
+                    raise Hang()
+                t = min(c.getTime() for c in self.clock.calls)
+                if t > self.clock.rightNow:
+                    self.clock.rightNow = t
+                for c in [c for c in self.clock.calls if c.getTime() == t]:
+                    if c in self.clock.calls:
+                        self.clock.calls.remove(c)
+                        c.called = 1
+                        self.executed += 1
+                        self.order.append(c)
+                        c.func(*c.args, **c.kw)
+
+    _BATCH.append(BatchReactor)
+    return BatchReactor
 
 
 def _exc(tc, cls):
@@ -108,8 +162,8 @@ def drive(case):
         # the real global reactor (extra_checks): the timeout is REAL_TIMEOUT seconds, delays are 0 or "far"
         from twisted.internet import reactor
     else:
-        reactor = VReactor([], install_signals=False,
-                           interrupts=[] if case["interrupt"] is None else [case["interrupt"]])
+        reactor = (_batch_reactor_class() if case.get("batch") else VReactor)(
+            [], install_signals=False, interrupts=[] if case["interrupt"] is None else [case["interrupt"]])
     stage_log = []
     keep = []
     left = [0, 0]      # leftover delayed calls: scheduled, run
@@ -138,13 +192,22 @@ def drive(case):
                 return None
             if r[0] == "raise":
                 raise _exc(tc, r[1])
+            if r[0] == "fired":
+                # an already fired Deferred
+                return defer.succeed(None) if r[1] is None else defer.fail(_exc(tc, r[1]))
             d = defer.Deferred()
             keep.append(d)
-            if r[0] == "later":
+            if r[0] in ("later", "chained"):
                 if r[2] is None:
                     keep.append(reactor.callLater(r[1], d.callback, None))
                 else:
                     keep.append(reactor.callLater(r[1], lambda: d.errback(_exc(tc, r[2]))))
+            if r[0] == "chained":
+                # fired but paused: `called` is True, the chain goes on when the inner Deferred fires
+                outer = defer.succeed(None)
+                outer.addCallback(lambda _: d)
+                keep.append(outer)
+                return outer
             return d
 
         runner_cls = (_runtest.AsynchronousDeferredRunTestForBrokenTwisted if case["broken"]
@@ -217,13 +280,16 @@ def real_cases(rng, n):
     def stage(k):
         r = rng.random()
         # "never" costs the whole real timeout: keep it rare
-        ret = (("return",) if r < 0.3 else ("raise", rng.choice(CLS)) if r < 0.42 else
-               ("later", 0, None) if r < 0.8 else ("later", 0, rng.choice(CLS)) if r < 0.95 else ("never",))
+        ret = (("return",) if r < 0.25 else ("raise", rng.choice(CLS)) if r < 0.35 else
+               ("fired", None if rng.random() < 0.7 else rng.choice(CLS)) if r < 0.42 else
+               ("later", 0, None) if r < 0.65 else ("chained", 0, None) if r < 0.8 else
+               (rng.choice(["later", "chained"]), 0, rng.choice(CLS)) if r < 0.95 else ("never",))
         return st(ret, [FAR] if rng.random() < 0.12 else [], rng.random() < 0.1, rng.random() < 0.1)
     fixed = [mk(), mk(body=st(("later", 0, None)), cleanups=[st(("later", 0, None)), st(("later", 0, "err"))]),
              mk(body=st(("never",)), cleanups=[st()]), mk(body=st(("later", 0, None), leave=[FAR])),
              mk(body=st(("later", 0, None), logerr=True)), mk(teardown=st(("later", 0, None), drop=True)),
              mk(cleanups=[st(("raise", "kbd")), st(("later", 0, None))]),
+             mk(cleanups=[st(), st(("chained", 0, None))]), mk(body=st(("chained", 0, "fail")), cleanups=[st()]),
              mk(setup=st(("later", 0, "skip")), cleanups=[st(("later", 0, None)), st()]),
              mk(body=st(("later", 0, "fail")), broken=True, suppress=False, store=False, nobs=2),
              mk(body=st(("never",), leave=[FAR], logerr=True), broken=True, nobs=1)]
@@ -234,6 +300,7 @@ def real_cases(rng, n):
                         nobs=rng.choice([0, 1, 2])))
     for c in cases:
         c["real"] = True
+        c["batch"] = True       # the real reactor's runUntilCurrent; no tie can occur in these programs
     return cases
 
 
@@ -291,8 +358,11 @@ def t_stage(st):
         ret = "RReturn"
     elif r[0] == "raise":
         ret = "(RRaise %s)" % CLS_T[r[1]]
-    elif r[0] == "later":
-        ret = "(RLater %s %s)" % (q.nat(r[1]), q.option(r[2], lambda c: CLS_T[c]))
+    elif r[0] == "fired":
+        ret = "(RFired %s)" % q.option(r[1], lambda c: CLS_T[c])
+    elif r[0] in ("later", "chained"):
+        ret = "(%s %s %s)" % ("RLater" if r[0] == "later" else "RChained", q.nat(r[1]),
+                              q.option(r[2], lambda c: CLS_T[c]))
     else:
         ret = "RNever"
     return "(mkStage %s %s %s %s %s)" % (ret, q.lst([q.nat(x) for x in st["leave"]]), q.boolean(st["logerr"]),
@@ -300,8 +370,8 @@ def t_stage(st):
 
 
 def term(case, o):
-    i = "(mkProgram %s %s %s %s %s %s %s %s %s %s)" % (
-        q.boolean(case["broken"]), q.boolean(case["suppress"]), q.boolean(case["store"]), q.nat(case["nobs"]),
+    i = "(mkProgram %s %s %s %s %s %s %s %s %s %s %s)" % (
+        q.boolean(case["broken"]), q.boolean(bool(case.get("batch"))), q.boolean(case["suppress"]), q.boolean(case["store"]), q.nat(case["nobs"]),
         q.nat(case["timeout"]), q.option(case["interrupt"], q.nat), t_stage(case["setup"]), t_stage(case["body"]),
         t_stage(case["teardown"]), q.lst([t_stage(s) for s in case["cleanups"]]))
     evs = []
@@ -329,16 +399,26 @@ def st(ret=("return",), leave=(), logerr=False, drop=False, poll=None):
 
 
 def mk(setup=None, body=None, teardown=None, cleanups=(), timeout=6, interrupt=None, broken=False, suppress=True,
-       store=True, nobs=0):
-    return {"broken": bool(broken), "suppress": bool(suppress), "store": bool(store), "nobs": nobs,
+       store=True, nobs=0, batch=False):
+    return {"broken": bool(broken), "batch": bool(batch), "suppress": bool(suppress), "store": bool(store),
+            "nobs": nobs,
             "timeout": timeout, "interrupt": interrupt, "setup": setup or st(), "body": body or st(),
             "teardown": teardown or st(), "cleanups": list(cleanups)}
 
 
+def _raises(s):
+    r = s["ret"]
+    return r[0] == "raise" or (r[0] == "fired" and r[1] is not None) or \
+        (r[0] in ("later", "chained") and r[2] is not None)
+
+
+def _asyn(s):
+    return s["ret"][0] in ("later", "chained", "never")
+
+
 def plan(case):
-    raises = case["setup"]["ret"][0] == "raise" or (case["setup"]["ret"][0] == "later"
-                                                    and case["setup"]["ret"][2] is not None)
-    pl = [case["setup"]] + ([] if raises else [case["body"], case["teardown"]]) + list(reversed(case["cleanups"]))
+    pl = [case["setup"]] + ([] if _raises(case["setup"]) else [case["body"], case["teardown"]]) + \
+        list(reversed(case["cleanups"]))
     return pl
 
 
@@ -346,21 +426,21 @@ def cut_instant(case):
     return case["timeout"] if case["interrupt"] is None else min(case["interrupt"], case["timeout"])
 
 
-def tie_free(case):
-    """no stage Deferred due exactly at the cut instant (required of ForBrokenTwisted cases: Spec.C14.wfb)"""
+def tie_index(case):
+    """index in the plan of the stage whose Deferred is due exactly at the cut instant (it loses against the
+    timeout / the interrupt), or None"""
     C, t = cut_instant(case), 0
-    for s in plan(case):
+    for k, s in enumerate(plan(case)):
         r = s["ret"]
-        if r[0] == "later":
+        if r[0] in ("later", "chained"):
             if t + r[1] == C:
-                return False
-            if t + r[1] < C:
-                t += r[1]
-            else:
-                return True
+                return k
+            if t + r[1] > C:
+                return None
+            t += r[1]
         elif r[0] == "never":
-            return True
-    return True
+            return None
+    return None
 
 
 def behaviours(T):
@@ -369,21 +449,58 @@ def behaviours(T):
             st(("later", T, None)), st(("later", T + 2, "fail")), st(("never",))]
 
 
-def rand_stage(rng, T):
+def rand_ret(rng, T, sync=False):
     r = rng.random()
-    if r < 0.35:
-        ret = ("return",)
-    elif r < 0.5:
-        ret = ("raise", rng.choice(["err", "err", "fail", "skip", "kbd"]))
-    elif r < 0.93:
-        ret = ("later", rng.choice([0, 1, 1, 2, 3, T - 1, T, T + 1]),
-               None if rng.random() < 0.7 else rng.choice(["err", "fail", "skip", "kbd"]))
-    else:
-        ret = ("never",)
+    if sync:
+        return (("return",) if r < 0.5 else ("raise", rng.choice(CLS)) if r < 0.7 else
+                ("fired", None) if r < 0.9 else ("fired", rng.choice(CLS)))
+    if r < 0.3:
+        return ("return",)
+    if r < 0.43:
+        return ("raise", rng.choice(["err", "err", "fail", "skip", "kbd"]))
+    if r < 0.5:
+        return ("fired", None if rng.random() < 0.6 else rng.choice(CLS))
+    if r < 0.93:
+        return ("later" if rng.random() < 0.7 else "chained", rng.choice([0, 0, 1, 1, 2, 3, T - 1, T, T + 1]),
+                None if rng.random() < 0.7 else rng.choice(["err", "fail", "skip", "kbd"]))
+    return ("never",)
+
+
+def rand_stage(rng, T, sync=False):
+    ret = rand_ret(rng, T, sync)
     leave = [rng.choice([0, 0, 1, 2, 3, T, T + 3]) for _ in range(rng.choice([0, 0, 0, 0, 1, 1, 2]))]
     # a poller reschedules itself every >= 1 ticks (with 0 virtual time would never move again)
     poll = [rng.choice([0, 0, 1, 2, T]), rng.choice([1, 1, 2])] if rng.random() < 0.06 else None
     return st(ret, leave, rng.random() < 0.08, rng.random() < 0.08, poll)
+
+
+def force_tie(rng, c):
+    """rewrite a random program so that one stage's Deferred is due exactly at the cut instant; with probability
+    1/2 every stage after it completes synchronously, otherwise some wait for a Deferred due at that same instant"""
+    C = cut_instant(c)
+    names = ["setup", "body", "teardown"] + [("cleanups", k) for k in reversed(range(len(c["cleanups"])))]
+    if _raises(c["setup"]):
+        names = ["setup"] + names[3:]
+    k = rng.randrange(len(names))
+    t = 0
+    mode = rng.random()
+    for j, nm in enumerate(names):
+        s_ = c[nm] if isinstance(nm, str) else c["cleanups"][nm[1]]
+        r = s_["ret"]
+        if j < k:
+            if r[0] in ("later", "chained"):
+                d = min(r[1], max(0, C - 1 - t))
+                r[1] = d
+                t += d
+            elif r[0] == "never":
+                s_["ret"] = ["return"]
+        elif j == k:
+            s_["ret"] = [rng.choice(["later", "later", "chained"]), C - t, rng.choice([None, None, None, "err", "kbd"])]
+        elif mode < 0.5:
+            s_["ret"] = list(rand_ret(rng, C, sync=True))
+        elif mode < 0.8 and r[0] in ("later", "chained"):
+            r[1] = 0
+    return c
 
 
 def generate(rng, tier):
@@ -439,6 +556,40 @@ def generate(rng, tier):
                     [st(), st(("later", 3, "err"))], [st(("later", 1, None), leave=[1]), st(("never",))],
                     [st(("later", T, None)), st()]):
             fixed.append(mk(setup=su, cleanups=cls))
+    # a Deferred handed over ALREADY FIRED: plain (succeed / fail), or paused on an inner Deferred that fires later
+    # ("fired but paused": Deferred.called is True while the chain still waits) - the runner has to wait for the
+    # whole chain, in every stage
+    for ch in (st(("chained", 2, None)), st(("chained", 0, None)), st(("chained", 1, "err")),
+               st(("chained", T, None)), st(("chained", 2, None), leave=[1])):
+        fixed += [mk(cleanups=[ch]), mk(cleanups=[st(), ch]), mk(cleanups=[ch, st(("later", 1, None))]),
+                  mk(cleanups=[st(("chained", 1, None)), ch], broken=True), mk(setup=ch, cleanups=[st()]),
+                  mk(body=ch), mk(teardown=ch, cleanups=[st(("raise", "err"))]),
+                  mk(setup=st(("raise", "skip")), cleanups=[st(), ch])]
+    fixed += [mk(body=st(("fired", None))), mk(body=st(("fired", "fail")), cleanups=[st(("fired", None))]),
+              mk(setup=st(("fired", "err")), cleanups=[st(("fired", "kbd")), st(("fired", None))]),
+              mk(teardown=st(("fired", "skip"))), mk(cleanups=[st(("fired", "err")), st(("fired", None))])]
+    # ties: a Deferred due exactly at the cut instant loses against the timeout (the Spinner's call is the oldest)
+    # and against an interrupt; on a batch reactor / during the obligatory iterations it still fires afterwards
+    # and the stages behind it run as far as they complete synchronously - the verdict must stay "error"
+    sync_tails = [[], [st()], [st(), st(("fired", None))], [st(("raise", "err"))], [st(leave=[0])],
+                  [st(("later", 0, None)), st()], [st(("chained", 0, None)), st(("later", 0, None)), st()],
+                  [st(("later", 1, None))], [st(logerr=True), st(drop=True)]]
+    for batch, broken in ((False, False), (True, False), (False, True), (True, True)):
+        for kind in ("later", "chained"):
+            for tail in sync_tails:
+                fixed.append(mk(body=st((kind, T, None)), cleanups=tail, batch=batch, broken=broken))
+            fixed += [mk(setup=st((kind, T, None)), batch=batch, broken=broken),
+                      mk(body=st(("later", 2, None)), teardown=st((kind, T - 2, None), leave=[0, T - 2]),
+                         batch=batch, broken=broken),
+                      mk(body=st((kind, T, "fail")), batch=batch, broken=broken),
+                      mk(cleanups=[st(), st((kind, T, None))], batch=batch, broken=broken),
+                      mk(cleanups=[st((kind, 2, None)), st((kind, T - 2, None)), st((kind, 4, None))][::-1],
+                         batch=batch, broken=broken),
+                      mk(body=st((kind, 3, None)), interrupt=3, cleanups=[st()], batch=batch, broken=broken),
+                      mk(body=st((kind, T, None), leave=[T]), teardown=st(leave=[0, 1]), batch=batch, broken=broken),
+                      mk(body=st((kind, T, None)), teardown=st(poll=[0, 1]), batch=batch, broken=broken),
+                      mk(body=st((kind, T, None), poll=[T, 0]), batch=batch, broken=broken),
+                      mk(timeout=0, body=st((kind, 0, None)), batch=batch, broken=broken)]
     cases += fixed
     # bounded-exhaustive core: 8 behaviours for setUp x body x tearDown x (no cleanup | one of 8)
     core = []
@@ -453,10 +604,10 @@ def generate(rng, tier):
         if k % stride == off:
             c = dict(c)
             c["broken"] = rng.random() < 0.3
+            c["batch"] = rng.random() < 0.5
             c["suppress"], c["store"] = rng.random() < 0.5, rng.random() < 0.5
             c["nobs"] = rng.choice([0, 1, 2])
-            if not c["broken"] or tie_free(c):
-                cases.append(c)
+            cases.append(c)
     n_rand = 2000 if tier == "quick" else 60000
     while n_rand > 0:
         Tr = rng.choice([T, T, T, 3, 9])
@@ -464,9 +615,9 @@ def generate(rng, tier):
                [rand_stage(rng, Tr) for _ in range(rng.choice([0, 1, 1, 2, 2, 3]))], timeout=Tr,
                interrupt=rng.choice([0, 1, 2, 3, 4, Tr - 1, Tr, Tr + 1]) if rng.random() < 0.3 else None,
                broken=rng.random() < 0.35, suppress=rng.random() < 0.6, store=rng.random() < 0.6,
-               nobs=rng.choice([0, 0, 1, 2]))
-        if c["broken"] and not tie_free(c):
-            continue
+               nobs=rng.choice([0, 0, 1, 2]), batch=rng.random() < 0.5)
+        if rng.random() < 0.25 and cut_instant(c) > 0:
+            c = force_tie(rng, c)
         cases.append(c)
         n_rand -= 1
     return cases
@@ -474,18 +625,13 @@ def generate(rng, tier):
 
 def nontrivial(case):
     sts = plan(case)
-    asyn = any(s["ret"][0] in ("later", "never") for s in sts)
-    unclean = any(s["ret"][0] == "raise" or (s["ret"][0] == "later" and s["ret"][2]) or s["leave"] or s["logerr"]
-                  or s["drop"] or s.get("poll") for s in sts)
-    return asyn and (unclean or case["interrupt"] is not None)
+    asyn = any(_asyn(s) for s in sts)
+    unclean = any(_raises(s) or s["leave"] or s["logerr"] or s["drop"] or s.get("poll") for s in sts)
+    return asyn and (unclean or case["interrupt"] is not None or tie_index(case) is not None)
 
 
 def shrink(case):
-    """one-step reductions that stay inside wf (Spec.C14.wfb): a smaller ForBrokenTwisted case with a stage Deferred
-    due exactly at the cut instant is outside the model and would be a bogus witness"""
-    for c in _shrink(case):
-        if not c["broken"] or tie_free(c):
-            yield c
+    return _shrink(case)
 
 
 def _shrink(case):
@@ -497,8 +643,8 @@ def _shrink(case):
         yield rep(cleanups=case["cleanups"][:k] + case["cleanups"][k + 1:])
     if case["interrupt"] is not None:
         yield rep(interrupt=None)
-    for f in ("broken", "suppress", "store"):
-        if case[f]:
+    for f in ("broken", "batch", "suppress", "store"):
+        if case.get(f):
             yield rep(**{f: False})
     if case["nobs"]:
         yield rep(nobs=case["nobs"] - 1)
@@ -514,8 +660,14 @@ def _shrink(case):
             return rep(cleanups=cl)
         if s["ret"] != ["return"]:
             yield put(dict(s, ret=["return"]))
-        if s["ret"][0] == "later" and s["ret"][1] > 0:
-            yield put(dict(s, ret=["later", s["ret"][1] - 1, s["ret"][2]]))
+        if s["ret"][0] == "chained":
+            yield put(dict(s, ret=["later", s["ret"][1], s["ret"][2]]))
+        if s["ret"][0] == "fired" and s["ret"][1] is not None:
+            yield put(dict(s, ret=["raise", s["ret"][1]]))
+        if s["ret"][0] in ("later", "chained") and s["ret"][1] > 0:
+            yield put(dict(s, ret=[s["ret"][0], s["ret"][1] - 1, s["ret"][2]]))
+        if s["ret"][0] in ("later", "chained") and s["ret"][2] is not None:
+            yield put(dict(s, ret=[s["ret"][0], s["ret"][1], None]))
         for j in range(len(s["leave"])):
             yield put(dict(s, leave=s["leave"][:j] + s["leave"][j + 1:]))
         if s["logerr"]:
@@ -526,33 +678,32 @@ def _shrink(case):
             yield put(dict(s, poll=None))
 
 
-def _raises(s):
-    return s["ret"][0] == "raise" or (s["ret"][0] == "later" and s["ret"][2] is not None)
-
-
 def _simulate(case):
     """(instant at which the last planned stage fired or None when the run is cut first, start instants)"""
     C, t, starts = cut_instant(case), 0, []
     for s in plan(case):
         starts.append(t)
         r = s["ret"]
-        if r[0] == "never" or (r[0] == "later" and t + r[1] >= C):
+        if r[0] == "never" or (r[0] in ("later", "chained") and t + r[1] >= C):
             return None, starts
-        if r[0] == "later":
+        if r[0] in ("later", "chained"):
             t += r[1]
     return t, starts
 
 
 def distribution(cases):
-    d = {"variant": {"plain": 0, "broken": 0}, "suppress": 0, "store": 0, "with_interrupt": 0, "cleanups": {},
-         "failing_stages": {}, "failure_only_in_a_cleanup": 0, "kbd_in_a_cleanup": 0,
+    d = {"variant": {"plain": 0, "broken": 0}, "batch_reactor": 0, "suppress": 0, "store": 0, "with_interrupt": 0,
+         "cleanups": {}, "failing_stages": {}, "failure_only_in_a_cleanup": 0, "kbd_in_a_cleanup": 0,
          "ending": {"completed": 0, "timeout": 0, "interrupt": 0},
          "completed_with_leftover_still_scheduled": 0, "completed_with_leftover_already_run": 0,
          "stage_ret": {}, "with_leftovers": 0, "with_logged_error": 0, "with_dropped_failure": 0, "with_poller": 0,
-         "failed_setup_with_async_cleanup": 0,
-         "later_vs_cut": {"<": 0, "=": 0, ">": 0}, "extra_observers": {}}
+         "failed_setup_with_async_cleanup": 0, "fired_but_paused_cleanup": 0, "fired_but_paused_other_stage": 0,
+         "tie_at_cut": {"total": 0, "batch_timeout": 0, "batch_timeout_rest_synchronous": 0, "broken": 0,
+                        "interrupt": 0, "next_waits_for_same_instant": 0},
+         "deferred_vs_cut": {"<": 0, "=": 0, ">": 0}, "extra_observers": {}}
     for c in cases:
         d["variant"]["broken" if c["broken"] else "plain"] += 1
+        d["batch_reactor"] += bool(c.get("batch"))
         d["suppress"] += c["suppress"]
         d["store"] += c["store"]
         d["with_interrupt"] += c["interrupt"] is not None
@@ -561,33 +712,44 @@ def distribution(cases):
         d["extra_observers"][c["nobs"]] = d["extra_observers"].get(c["nobs"], 0) + 1
         C, t = cut_instant(c), 0
         alive = True
-        sr = c["setup"]["ret"]
         pl = plan(c)
         nfail = sum(_raises(s) for s in pl)
         d["failing_stages"][min(nfail, 3)] = d["failing_stages"].get(min(nfail, 3), 0) + 1
         ncl = len(c["cleanups"])
         d["failure_only_in_a_cleanup"] += nfail > 0 and not any(_raises(s) for s in pl[:len(pl) - ncl])
         d["kbd_in_a_cleanup"] += any(s["ret"][-1] == "kbd" for s in c["cleanups"])
+        d["fired_but_paused_cleanup"] += any(s["ret"][0] == "chained" for s in c["cleanups"])
+        d["fired_but_paused_other_stage"] += any(s["ret"][0] == "chained" for s in pl[:len(pl) - ncl])
         end, starts = _simulate(c)
-        d["ending"]["completed" if end is not None else
-                    "interrupt" if c["interrupt"] is not None and c["interrupt"] <= c["timeout"] else "timeout"] += 1
+        timeout_kind = not (c["interrupt"] is not None and c["interrupt"] <= c["timeout"])
+        d["ending"]["completed" if end is not None else "timeout" if timeout_kind else "interrupt"] += 1
         if end is not None:
             d["completed_with_leftover_still_scheduled"] += any(
                 t0 + dl > end for s, t0 in zip(pl, starts) for dl in s["leave"])
             d["completed_with_leftover_already_run"] += any(
                 t0 + dl < end for s, t0 in zip(pl, starts) for dl in s["leave"])
-        d["failed_setup_with_async_cleanup"] += (sr[0] == "raise" or (sr[0] == "later" and sr[2] is not None)) and \
-            any(x["ret"][0] in ("later", "never") for x in c["cleanups"])
-        for s in plan(c):
+        ti = tie_index(c)
+        if ti is not None:
+            tc = d["tie_at_cut"]
+            tc["total"] += 1
+            tc["broken"] += c["broken"]
+            tc["interrupt"] += not timeout_kind
+            if timeout_kind and c.get("batch"):
+                tc["batch_timeout"] += 1
+                tc["batch_timeout_rest_synchronous"] += not any(_asyn(s) for s in pl[ti + 1:])
+            tc["next_waits_for_same_instant"] += any(s["ret"][0] in ("later", "chained") and s["ret"][1] == 0
+                                                     for s in pl[ti + 1:ti + 2])
+        d["failed_setup_with_async_cleanup"] += _raises(c["setup"]) and any(_asyn(x) for x in c["cleanups"])
+        for s in pl:
             d["with_poller"] += s.get("poll") is not None
             k = s["ret"][0] if s["ret"][0] != "raise" else "raise-" + s["ret"][1]
             d["stage_ret"][k] = d["stage_ret"].get(k, 0) + 1
             d["with_leftovers"] += bool(s["leave"])
             d["with_logged_error"] += s["logerr"]
             d["with_dropped_failure"] += s["drop"]
-            if alive and s["ret"][0] == "later":
+            if alive and s["ret"][0] in ("later", "chained"):
                 f = t + s["ret"][1]
-                d["later_vs_cut"]["<" if f < C else "=" if f == C else ">"] += 1
+                d["deferred_vs_cut"]["<" if f < C else "=" if f == C else ">"] += 1
                 if f < C:
                     t = f
                 else:
